@@ -508,7 +508,7 @@ def gen_storage_case(rng, kind, size):
             elif holder[0] is None and pending[0] is None and 'file' in kind and r < 0.50:
                 # clean close + reopen from the saved index; nobody holds the lock
                 ops.append('reopen')
-            elif holder[0] is None and pending[0] is None and kind == 'file' and r < 0.56:
+            elif holder[0] is None and pending[0] is None and kind == 'file' and r < (0.68 if noids == 1 else 0.56):
                 # undo of a committed transaction of one object (skipped by both sides unless it wrote
                 # exactly that object): mostly the current revision -> a back-pointer record without data
                 cands = [o for o in oids if len(sim.get(o, [])) >= 2 and all(v is not None for _, v in sim[o])]
@@ -610,6 +610,51 @@ def gen_storage_case(rng, kind, size):
     for oid in oids + [9]:
         ops += ['cur %d' % oid, 'load %d' % oid, 'hist %d' % oid]
     return dict(section='storage', kind=kind, ops=ops)
+
+
+def gen_storage_undo_case(rng):
+    """FileStorage, object 1 with a history of single-object transactions, undo transactions (mostly of
+    the current revision: a back-pointer record without data, sometimes of the creation) and clean
+    reopens in between; readers write object 2 and declare object 1 current at the tid of SOME earlier
+    revision — in particular the one that holds the pickle an undo record points back to"""
+    ops = []
+    tid = 10
+    revs = []                # believed tids of object 1 (oldest first)
+    o2 = [0]
+    val = [100]
+
+    def commit1():
+        nonlocal tid
+        tid += rng.choice([1, 3])
+        val[0] += 1
+        ops.extend(['begin 1 %d' % tid, 'store 1 1 %d %s' % (revs[-1] if revs else 0, L.rec_wire(rng.choice([2, 1, 11]), 0, val[0])),
+                    'vote 1', 'finish 1'])
+        revs.append(tid)
+    commit1()
+    commit1()
+    for _ in range(rng.choice([4, 6, 9])):
+        r = rng.random()
+        if r < 0.25:
+            commit1()
+        elif r < 0.50 and len(revs) >= 2:
+            tid += rng.choice([1, 2])
+            undone = revs[-1] if rng.random() < 0.7 else rng.choice(revs)
+            ops.append('undotxn %d 1 %d' % (tid, undone))
+            if undone == revs[-1]:
+                revs.append(tid)
+        elif r < 0.58:
+            ops.append('reopen')
+        else:
+            tid += rng.choice([1, 2])
+            ser = rng.choice(revs[-4:])
+            ops += ['begin 2 %d' % tid, 'store 2 2 %d %s' % (o2[0], L.rec_wire(2, 0, tid)), 'check 2 1 %d' % ser]
+            if rng.random() < 0.3:
+                ops.append('check 2 1 %d' % rng.choice(revs))
+            ops += ['vote 2', 'finish 2']
+            o2[0] = tid          # belief: the transaction commits even if a check failed (checks only raise)
+    for oid in (1, 2):
+        ops += ['cur %d' % oid, 'load %d' % oid, 'hist %d' % oid]
+    return dict(section='storage', kind='file', ops=ops)
 
 
 def run_storage_real(case, tmp, tag='s'):
@@ -1489,6 +1534,9 @@ def main(argv=None):
         for kind in KINDS:
             for _ in range(n_st):
                 cases.append(gen_storage_case(ck.rng, kind, ck.rng.choice([12, 25, 40, 60])))
+            if kind == 'file':
+                for _ in range(n_st // 2):
+                    cases.append(gen_storage_undo_case(ck.rng))
             for _ in range(n_db):
                 cases.append(gen_db_case(ck.rng, kind, ck.rng.choice([8, 14, 24])))
             if have_sched:
